@@ -1,3 +1,4 @@
 pub mod evidence;
 pub mod props;
 pub mod poolmc;
+pub mod sio;
